@@ -13,6 +13,18 @@ SEQ_TECH = ('TLA+ design model DosSeq model-checked with TLC; histories (random 
             'step-by-step conformance to DosSeq')
 
 CHECKS = {
+    'C01': {
+        'category': 'exploration',
+        'text': 'Paths.tla enumerates (write path, compress, size class, read path) and states the round-trip law on content '
+                'identities; TLC dumps the graph and every Store->Read path is replayed with concrete bytes (sizes straddling '
+                '64 KiB / 128 KiB / 512 KiB / 1 MiB, compressible / incompressible / mixed, short-read streams, lazily opened '
+                'files) under configurations drawn from hash x prefix x zlib level x pack target; hashlib and byte equality decide.',
+        'design_ref': 'DESIGN.md section 6 C01',
+        'note': 'TLA+ does not reason about bytes, digests or deflate: the specification contributes the cover and the abstract '
+                'law, the comparison is done on real bytes; claimed as exploration, not model checking.',
+        'technique': 'TLA+ cover model (Paths.tla) enumerated by TLC, each transition replayed on the implementation with '
+                     'concrete inputs (spec -> code)',
+    },
     'C02': {
         'category': 'model_checking',
         'text': 'DosSeq (call-level design model with the L2 key->content map as ghost) is checked exhaustively by TLC '
@@ -133,6 +145,19 @@ CHECKS = {
                 'evaluates C14_ImportExact on every import step and conformance to DosSeq.Import.',
         'design_ref': 'DESIGN.md section 6 C14', 'note': SEQ_NOTE, 'technique': SEQ_TECH,
     },
+    'C15': {
+        'category': 'model_checking',
+        'text': 'The real backup_container runs with the real rsync; a harness-side subclass of BackupManager and a wrapper of '
+                'the SQLite dump call a hook at each of the 6 boundaries of the copy phases, where the concurrent steps of '
+                'other (long-open) handles - loose adds, pack_all_loose with/without per-pack cleaning, clean_storage, direct-'
+                'to-pack adds - are placed in every order-preserving assignment, for full and incremental backups. TLC '
+                'evaluates Complete / ExposedReadCorrectly / ValidateClean / IndexOK (BackupTrace.tla) on every backup.',
+        'design_ref': 'DESIGN.md section 6 C15',
+        'note': 'placements are at phase boundaries, not inside the copy of a single phase (rsync internals are not scheduled); '
+                'a backup that fails is outside the property and only counted.',
+        'technique': 'systematic placement of concurrent steps at the copy-phase boundaries of the real backup; recorded backups '
+                     'validated by TLC against the TLA+ monitor BackupTrace',
+    },
     'C16': {
         'category': 'model_checking',
         'text': 'Merge.tla (transcription of detect_where_sorted) is model-checked for all pairs of sorted unique sequences over '
@@ -153,6 +178,17 @@ CHECKS = {
                 'as the property states.',
         'technique': 'exhaustive single-fault enumeration on the real code via interposition; outcomes validated by TLC against '
                      'the TLA+ monitor CrashTrace',
+    },
+    'C18': {
+        'category': 'model_checking',
+        'text': 'Descriptor census (/proc/self/fd) after every call of every history and after close (SeqTrace: C18_NoFdLeak, '
+                'C18_ClosedNoFds); number of pack/loose files open during bulk reads; LazyOpener inputs open only while consumed; '
+                'no accumulation over 25 rounds of operations; tracemalloc peaks of every streaming path for 1 and 16 MiB (thorough '
+                '64 MiB) objects of three compressibility classes. TLC evaluates the bounds of ResTrace.tla on every line.',
+        'design_ref': 'DESIGN.md section 6 C18',
+        'note': 'peak memory is measured (tracemalloc), the specification only states the size-independent bound: TLA+ cannot '
+                'derive memory use.',
+        'technique': 'resource measurements on the real code checked by TLC against TLA+ monitors (SeqTrace, ResTrace)',
     },
 }
 
